@@ -204,7 +204,10 @@ def install() -> None:
     except Exception:
         pass
     # silence asimap logging: it is voluminous and slows the search a lot
-    logging.disable(logging.CRITICAL)
+    if os.environ.get("VF_LOG"):
+        logging.basicConfig(level=logging.ERROR, stream=sys.stderr)  # debugging aid: show asimap's own tracebacks
+    else:
+        logging.disable(logging.CRITICAL)
 
 
 def scratch_root() -> Path:
